@@ -135,7 +135,7 @@ func (r *Runner) checkProperty(spec *PropSpec) int {
 			}
 			violationLines = append(violationLines, line)
 			failedNames = append(failedNames, o.Name)
-			fmt.Printf("  failed obligation %s [%s] at %s: %s — replay %s (%s)\n", o.Name, o.Status, o.Pos, o.Text, rec.Verdict, rec.Reason)
+			fmt.Printf("  failed obligation %s [%s] at %s: %s — replay %s (%s)\n", o.Name, o.Status, o.Pos, truncate(o.Text, 200), rec.Verdict, truncate(rec.Reason, 300))
 		}
 		byKind[o.Kind] = c
 	}
